@@ -133,7 +133,7 @@ def h_verify(name, n, mode):
         pre = ""
         chk = ("unsafe { assert!(sha_is(0, &[&msg]), \"PREHASH_INPUT: the pre-hash is over the concatenated updates\"); }\n"
                "    let ph = unsafe { DKS.sha_out[0] };\n    check_verify_common(&sig, &pk, &ph, true, 1, r.is_ok());")
-    return rs.hdr(("barrier", "fmt") + rs.ED_VERIFY) + r'''
+    return rs.hdr(("barrier", "fmt") + rs.ED_VERIFY, extra=EXTRA_SIGN[1:2]) + r'''
 fn %(name)s() {
     let sig: [u8; 64] = kani::any(); let pk: [u8; 32] = kani::any(); let msg: [u8; %(n)d] = kani::any();
     wit!(W_0, &sig); wit!(W_1, &pk); wit!(W_2, &msg);
@@ -223,42 +223,23 @@ def suites(tier, seed):
                   assumptions=ASSUMPTIONS)]
 
 
-REPLAY_S = r'''
-// native replay of "S >= l accepted": sign honestly, add the group order to S, verify with dryoc; libsodium's verdict is the oracle
-use dryoc::classic::crypto_sign::*;
-fn main() {
-    let (pk, sk) = crypto_sign_seed_keypair(&[7u8; 32]);
-    let msg = b"malleability";
-    let mut sig = [0u8; 64];
-    crypto_sign_detached(&mut sig, msg, &sk).unwrap();
-    // S + l (little endian 256-bit add)
-    let l: [u8; 32] = [0xed,0xd3,0xf5,0x5c,0x1a,0x63,0x12,0x58,0xd6,0x9c,0xf7,0xa2,0xde,0xf9,0xde,0x14,0,0,0,0,0,0,0,0,0,0,0,0,0,0,0,0x10];
-    let mut carry = 0u16;
-    for i in 0..32 { let v = sig[32 + i] as u16 + l[i] as u16 + carry; sig[32 + i] = v as u8; carry = v >> 8; }
-    if carry != 0 { println!("NOTE S + l overflowed 256 bits for this key"); std::process::exit(3); }
-    print!("SIG="); for b in sig.iter() { print!("{:02x}", b); } println!();
-    print!("PK="); for b in pk.iter() { print!("{:02x}", b); } println!();
-    if crypto_sign_verify_detached(&sig, msg, &pk).is_ok() { println!("MISMATCH SIG_S_CANONICAL dryoc accepts S + l"); std::process::exit(1); }
-    println!("agree");
-}
-'''
-
-
 def replay(v, scratch):
-    role = v["role"]
-    if role == "SIG_S_CANONICAL":
-        outs = runner.native_run(scratch, "c06", REPLAY_S)
-        # libsodium's verdict on the same malleated signature
-        detail = "; ".join("%s rc=%s %s" % (p, rc, o.strip()[-400:]) for p, rc, o in outs)
-        sod = None
-        try:
-            import ctypes, re
-            o = outs[0][2]
-            sig = bytes.fromhex(re.search(r"SIG=([0-9a-f]+)", o).group(1)); pk = bytes.fromhex(re.search(r"PK=([0-9a-f]+)", o).group(1))
-            so = ctypes.CDLL("libsodium.so.23")
-            sod = so.crypto_sign_verify_detached(sig, b"malleability", ctypes.c_ulonglong(12), pk)
-        except Exception as e:
-            detail += " (libsodium oracle unavailable: %r)" % (e,)
-        v["replay_input"] = {"program": REPLAY_S, "libsodium_verdict_on_S_plus_l": sod}
-        return any(rc == 1 and "MISMATCH" in o for _, rc, o in outs) and sod != 0, detail + " libsodium=%s" % sod
-    return None, "no native replay template for role %s" % role
+    """every C06 counterexample is confirmed by the differential battery replay/c06_battery.rs (dryoc vs libsodium): the
+    solver's witness plus the families the property quantifies over"""
+    import os
+    from vlib.engine import VERIF
+    w = v.get("witness", {})
+    pad = lambda k, n: ((w.get(k) or []) + [0] * n)[:n]
+    is_sign = "sign_" in v.get("harness", "")
+    sig = pad("W_0", 64) if not is_sign else [0] * 64
+    seed = pad("W_0", 32) if is_sign else [7] * 32
+    pk = pad("W_1", 32)
+    import re
+    m = re.search(r"_n(\d+)$", v.get("harness", ""))
+    n = int(m.group(1)) if m else 0
+    msg = pad("W_2", n)
+    main = open(os.path.join(VERIF, "replay", "c06_battery.rs")).read()
+    main = main.replace("= WSIG;", "= %s;" % runner.rust_bytes(sig)).replace("= WPK;", "= %s;" % runner.rust_bytes(pk)).replace("vec!WMSG;", "vec!%s;" % runner.rust_bytes(msg)).replace("= WSEED;", "= %s;" % runner.rust_bytes(seed))
+    outs = runner.native_run(scratch, "c06", main, extra_deps='libsodium-sys = "0.2"\ncurve25519-dalek = "4.1.3"\n', profiles=("release",), timeout=1800)
+    v["replay_input"] = {"signature": sig, "public_key": pk, "message": msg, "seed": seed, "program": "replay/c06_battery.rs"}
+    return any(rc == 1 and "MISMATCH" in o for _, rc, o in outs), "; ".join("%s rc=%s %s" % (p_, rc, o.strip()[-600:]) for p_, rc, o in outs)
